@@ -143,7 +143,7 @@ def load_known(pid):
             kv = {}
             rest = []
             for t in toks:
-                if "=" in t and not rest and t.split("=", 1)[0] in ("property", "sig", "case"):
+                if "=" in t and not rest and t.split("=", 1)[0] in ("property", "sig", "case", "count"):
                     k, v = t.split("=", 1)
                     kv[k] = v
                 else:
@@ -154,6 +154,9 @@ def load_known(pid):
                 {
                     "sig": kv.get("sig"),
                     "cases": set(kv["case"].split(",")) if "case" in kv else None,
+                    # count=quick:N,thorough:M  -- the exploration is exhaustive and deterministic, so the number of failing
+                    # cases of a known class is itself pinned: any other number is reported as a new violation
+                    "counts": dict((x.split(":")[0], int(x.split(":")[1])) for x in kv["count"].split(",")) if "count" in kv else None,
                     "text": " ".join(rest),
                     "hits": 0,
                 }
@@ -258,8 +261,15 @@ def main(argv=None):
             continue
         new.append(v)
     for k in known:
+        total = ctx.viol_counts.get(k["sig"], k["hits"]) if k["sig"] else k["hits"]
         if k["hits"]:
-            print("KNOWN-FINDING: property=%s %s [sig=%s cases=%d witness=%s]" % (pid, k["text"], k["sig"], k["hits"], k.get("witness")))
+            print("KNOWN-FINDING: property=%s %s [sig=%s cases=%d witness=%s]" % (pid, k["text"], k["sig"], total, k.get("witness")))
+        if k.get("counts") and args.tier in k["counts"] and not args.replay:
+            want = k["counts"][args.tier]
+            if total != want:
+                new.append({"id": case_id({"population": k["sig"], "n": total}), "sig": "%s:population-changed" % k["sig"], "oracle": "known-finding-population",
+                            "msg": "the known finding '%s' lists %d failing cases for the %s tier, this run found %d: the defect changed" % (k["sig"], want, args.tier, total),
+                            "case": {"kind": "population", "sig": k["sig"]}, "focus": {"kind": "population", "sig": k["sig"]}})
     # report at most 25 violation lines, fewest-deviation first (cases are generated simplest-first)
     new.sort(key=lambda v: (len(canon_json(v.get("focus", v.get("case")))), v["id"]))
     by_sig = {}
